@@ -43,7 +43,7 @@ def setup_worker():
     contracts.install()
 
 
-def build(rng):
+def build(rng, iso_rng=None):
     """-> (MolAst, blocks [(unit smiles text, mass)], head text, tail text)"""
     nb = rng.choice([1, 1, 2, 2, 3])
     start = rng.choice(["prefix", "prefix", "end"])
@@ -56,6 +56,10 @@ def build(rng):
         units = [rng.choice(["CO", "CS", "CN", "C(F)C"])] * 2  # adjacent blocks of the SAME (asymmetric) unit: a chain has one reading per way of splitting its units between the blocks
     fam_i = rng.randrange(len(FAMS))
     aba = nb == 3 and len(set(units)) == 3 and rng.random() < 0.35
+    if iso_rng is not None and len(set(units)) == nb and iso_rng.random() < 0.15:
+        # an isotope-labelled repeat unit: its mass is the mass of the labelled atoms (41.013 instead of 40.021); drawn from a side stream, so
+        # that the other cases keep their inputs
+        units[iso_rng.randrange(nb)] = iso_rng.choice(["O[13CH2]C", "C[13C](=O)OC", "C[15NH]C"])  # first and last written atom are plain: they carry the descriptors
     if aba:
         units = [units[0], units[1], units[0]]  # symmetric ABA triblock: the first and the third object are written identically
     pfmt = rng.randrange(6)
@@ -142,7 +146,7 @@ def run_case(case):
     rng = random.Random(case["seed"])
     cnt = collections.Counter()
     viol, nt = [], set()
-    ast, blocks, head, tail, start = build(rng)
+    ast, blocks, head, tail, start = build(rng, random.Random(case["seed"] ^ 0x13C))
     text = ast.to_text()
     try:
         M = gbigsmiles.Molecule(text)
